@@ -8,12 +8,18 @@ import (
 	keystore "github.com/ipfs/go-ipfs-keystore"
 	"github.com/libp2p/go-libp2p/core/crypto"
 
+	"berty.tech/weshnet/v2/pkg/ipfsutil"
 	"berty.tech/weshnet/v2/pkg/protocoltypes"
 )
 
 func verif_datastore(name string) datastore.Datastore    { panic("intrinsic") }
 func verif_symDatastore(name string) datastore.Datastore { panic("intrinsic") }
-func verif_keystore() keystore.Keystore                  { panic("intrinsic") }
+
+// verifKeystore: weshnet's own datastore-backed keystore (pkg/ipfsutil, executed for real: Put overwrites) over a
+// contract datastore of its own -- what NewSecretStoreOptions.applyDefaults builds over a namespace of the root datastore.
+func verifKeystore(name string) keystore.Keystore {
+	return ipfsutil.NewDatastoreKeystore(verif_datastore(name + ".keystore"))
+}
 func verif_background() context.Context                  { panic("intrinsic") }
 func verif_anyCid(name string) cid.Cid                   { panic("intrinsic") }
 func verif_cidN(i int) cid.Cid                           { panic("intrinsic") }
@@ -23,7 +29,7 @@ func verif_secretSymKey(k []byte)                        { panic("intrinsic") }
 // verifNewStore builds a real secretStore over the contract datastore/keystore with a small window.
 func verifNewStore(name string, window int) *secretStore {
 	s, err := newSecretStore(verif_datastore(name), &NewSecretStoreOptions{
-		Keystore:                           verif_keystore(),
+		Keystore:                           verifKeystore(name),
 		PreComputedKeysCount:               window,
 		PrecomputeOutOfStoreGroupRefsCount: 1,
 	})
